@@ -166,7 +166,7 @@ RE_LOC = re.compile(r'^\s*--> ([^:]+):(\d+):(\d+)')
 RE_OB = re.compile(r'/\*OB:([^:\s]+):([A-Z0-9,]*)\*/')
 PRIMS = ('take', 'put', 'peek', 'drop_range', 'range', 'forget', 'bitcopy_dead', 'add', 'from_raw_parts', 'cast', 'call', 'clone_', 'next_', 'write_str',
          'shift_down', 'swap', 'read_prefix_as_array', 'drop_owned', 'deref', 'write_prefix', 'subslice', 'scope_exit_unowned',
-         'box_slice_from_raw', 'box_arr_from_raw', 'box_arr_into_raw', 'box_slice_into_raw', 'vec_from_box_slice', 'into_boxed_slice', 'write_array', 'write_elem', 'read_array', 'read_elem', 'assume_init', 'scope_exit', 'union_reinterpret')
+         'box_slice_from_raw', 'box_arr_from_raw', 'box_arr_into_raw', 'box_slice_into_raw', 'vec_from_box_slice', 'into_boxed_slice', 'write_array', 'write_elem', 'read_array', 'read_elem', 'assume_init', 'scope_exit', 'union_reinterpret', 'retype_ref', 'const_transmute')
 
 
 def parse_errors(stderr, genfile):
